@@ -29,6 +29,9 @@ def monitoring(basenames=None):
 
 
 def prepare_common():
+    import sys
+    # generators abandoned while a run is being aborted complain when collected
+    sys.unraisablehook = lambda *a: None
     seams.install()
     seams.require_seams("time", "uuid4", "Lock", "threading", "time.time")
 
